@@ -1,0 +1,22 @@
+//go:build verif
+
+package pt
+
+// Contracts for the goblvc verifier (see /verif/DESIGN.md). Comments only.
+//
+// C13 (Portugal, NIF): nine digits starting with one of the listed prefixes; the first eight are
+// weighted 9..2, with r the weighted sum modulo 11 the ninth digit is 0 when r < 2 and 11 - r
+// otherwise.
+//@ pin validPrefixes map[cbc.Code]bool{"1": true, "2": true, "3": true, "5": true, "6": true, "8": true, "45": true, "70": true, "71": true, "72": true, "74": true, "75": true, "77": true, "78": true, "79": true, "90": true, "91": true, "98": true, "99": true}
+//@ pred ptP1(k string) bool = len(k) == 1 && (s_byte(k, 0) == 49 || s_byte(k, 0) == 50 || s_byte(k, 0) == 51 || s_byte(k, 0) == 53 || s_byte(k, 0) == 54 || s_byte(k, 0) == 56)
+//@ pred ptP2(k string) bool = len(k) == 2 && ((s_byte(k, 0) == 52 && s_byte(k, 1) == 53) || (s_byte(k, 0) == 55 && (s_byte(k, 1) == 48 || s_byte(k, 1) == 49 || s_byte(k, 1) == 50 || s_byte(k, 1) == 52 || s_byte(k, 1) == 53 || s_byte(k, 1) == 55 || s_byte(k, 1) == 56 || s_byte(k, 1) == 57)) || (s_byte(k, 0) == 57 && (s_byte(k, 1) == 48 || s_byte(k, 1) == 49 || s_byte(k, 1) == 56 || s_byte(k, 1) == 57)))
+//@ global validPrefixes != nil && (forall k cbc.Code :: (has(validPrefixes, k) && validPrefixes[k]) <==> (ptP1(k) || ptP2(k)))
+//@ rec ptSum(c string, k int) int = ite(k <= 0, 0, ptSum(c, k - 1) + (s_byte(c, k - 1) - 48) * (10 - k))
+//@ spec ptCheck(c string) int = ite(ptSum(c, 8) % 11 < 2, 0, 11 - ptSum(c, 8) % 11)
+//
+//@ func validateTaxCode(value) (err)
+//@   let code = unboxed(value, cbc.Code)
+//@   ensures [iff] typeis(value, cbc.Code) && code != "" ==> (err == nil <==> len(code) == 9 && digitsIn(code, 0, 9) && (ptP1(s_substr(code, 0, 1)) || ptP2(s_substr(code, 0, 2))) && s_byte(code, 8) - 48 == ptCheck(code))
+//@   ensures [skip] !typeis(value, cbc.Code) || code == "" ==> err == nil
+//@   loop 1 invariant digitsIn(code, 0, $pos)
+//@   loop 2 invariant len(code) == 9 && digitsIn(code, 0, 9) && 1 <= i && i <= 9 && sum == ptSum(code, i - 1) && sum >= 0 && sum <= 81 * i
